@@ -94,6 +94,21 @@ pub fn origins_with_twins(lines: &[Value], max: usize) -> Vec<Origin> {
             origins.push(t);
         }
     }
+    // forest variant: the edges of a spanning forest get weight 1e-10 (they close no loop, so the graph can stay
+    // convergent), the chords a weight above D/2: J values of order (1e10)^(number of forest edges)
+    for i in 0..origins.len().min(10) {
+        let o = origins[i].clone();
+        if o.key.contains('~') || o.edges.len() < 3 { continue; }
+        let mut parent: Vec<usize> = (0..256).collect();
+        fn find(p: &mut Vec<usize>, x: usize) -> usize { let mut r = x; while p[r] != r { r = p[r]; } p[x] = r; r }
+        let mut t = o.clone();
+        let mut nforest = 0;
+        for (e, &(a, b)) in o.edges.iter().enumerate() {
+            let (ra, rb) = (find(&mut parent, a as usize), find(&mut parent, b as usize));
+            if ra != rb { parent[ra] = rb; t.weights[e] = 1e-10; nforest += 1; } else { t.weights[e] = o.d as f64 / 2.0 + 1.0; }
+        }
+        if nforest >= 2 { t.key = format!("{}~forest", o.key); origins.push(t); }
+    }
     origins
 }
 
